@@ -65,12 +65,13 @@ namespace vt
         friend bool operator>=(const TT& a, const TT& b) { return a.id >= b.id; }
     };
     // An argument type and an alternative that is assignable from it without throwing but whose construction from it throws.
-    struct Arg { uint64_t id; };
+    struct Arg { uint64_t id; bool consumed = false; };
     struct NA
     {
         uint64_t id;
         explicit NA(uint64_t v) : id(v) { sim::fault_point(sim::FK_THROW); sim::registry().on_construct(this, 7, id, false); }
         NA(const Arg& a) : id(a.id) { sim::fault_point(sim::FK_THROW); sim::registry().on_construct(this, 7, id, false); }
+        NA(Arg&& a) : id(a.id) { sim::fault_point(sim::FK_THROW); sim::registry().on_construct(this, 7, id, false); a.consumed = true; }     // (may throw, like the lvalue form)
         NA(const NA& o) : id(o.id) { sim::fault_point(sim::FK_THROW); sim::registry().on_construct(this, 7, id, false); }
         NA(NA&& o) noexcept : id(o.id) { sim::registry().on_construct(this, 7, id, false); }
         NA& operator=(const Arg& a) noexcept { id = a.id; return *this; }
@@ -746,6 +747,15 @@ namespace
                     const XV& cxv = xv;
                     if (&xtl::xget<const int&>(cxv) != &xint) viol("model", "xget", "xget<const int&> on a variant holding xclosure_wrapper<int&> designates another object");
                     if (xv.index() != 0) viol("model", "xget", "wrong alternative for a closure of an int lvalue");
+                    // the alternative overloads unary & (it yields a closure pointer): get_if still hands out the address of the
+                    // alternative inside the variant
+                    auto* p = xtl::get_if<0>(&xv);
+                    auto* q = xtl::get_if<xtl::xclosure_wrapper<int&>>(&cxv);
+                    const char* lo = reinterpret_cast<const char*>(&xv);
+                    if (!p || !q) viol("model", "get_if", "get_if returns null for the live alternative (a type that overloads operator&)");
+                    if (reinterpret_cast<const char*>(p) < lo || reinterpret_cast<const char*>(p) >= lo + sizeof(XV) || static_cast<const void*>(p) != static_cast<const void*>(q))
+                        viol("model", "get_if", "get_if does not point at the alternative stored in the variant (a type that overloads operator&)");
+                    if (&p->get() != &xint) viol("model", "get_if", "the alternative reached through get_if designates another object");
                 }
                 else if (v == 1)
                 {
@@ -1184,8 +1194,14 @@ namespace
             MV want; want.index = 1; want.id = id;
             bool threw = false;
             Arg a{id};
-            try { slot[t].get() = a; }
+            bool rv = st.b & 1;
+            bool was_x = !pre.valueless && pre.index == 1;
+            try { if (rv) slot[t].get() = std::move(a); else slot[t].get() = a; }
             catch (const Injected&) { threw = true; }
+            // an rvalue source that has to be CONSTRUCTED into the alternative (the variant held another one) is consumed by
+            // NA(Arg&&); an lvalue source never is (when the variant already holds NA, its assignment from Arg runs instead)
+            if (!threw && !was_x && a.consumed != rv) viol("model", "value-category", std::string("converting assignment from an ") + (rv ? "rvalue built the alternative from a copy of its source" : "lvalue consumed its source"));
+            if (!rv && a.consumed) viol("model", "value-category", "converting assignment from an lvalue consumed its source");
             if (threw) { settle_after_throw(t, pre, &want); if (model[t].valueless) SIM_PROBE("valueless_by_assignment"); SIM_PROBE("converting_assignment_threw_in_constructor"); }
             else model[t] = want;
             ++run.changing;
